@@ -235,7 +235,7 @@ crate::harnesses! {
 
     /// u32: [sign +] exactly 10 symbolic digits (4-digit SWAR path, overflow edge 4294967295/6), symbolic no_multi_digit.
     /// @prop C04 C10
-    /// @tier thorough
+    /// @tier deep
     /// @feat default
     /// @bound inputs of the shape [0-9]{10}, both no_multi_digit settings
     /// @fn lexical-parse-integer::algorithm::algorithm_complete[u32] (parse_digits_checked / try_parse_4digits)
@@ -245,7 +245,7 @@ crate::harnesses! {
 
     /// i32: optional '-' + exactly 10 symbolic digits.
     /// @prop C04 C10
-    /// @tier thorough
+    /// @tier deep
     /// @feat default
     /// @bound inputs of the shape -?[0-9]{10}
     /// @fn lexical-parse-integer::algorithm::algorithm_complete[i32]
@@ -255,7 +255,7 @@ crate::harnesses! {
 
     /// u64: exactly 20 symbolic digits (8-digit SWAR path, overflow edge), symbolic no_multi_digit.
     /// @prop C04 C10
-    /// @tier thorough
+    /// @tier deep
     /// @feat default
     /// @bound inputs of the shape [0-9]{20}
     /// @fn lexical-parse-integer::algorithm::algorithm_complete[u64] (try_parse_8digits)
@@ -308,7 +308,7 @@ pub mod pow2 {
 
         /// i8 radix 2, complete parser: strings of length <= 10 over {0 1 + - 2} (overflow after 7/8 digits).
         /// @prop C04 C10
-        /// @tier thorough
+        /// @tier deep
         /// @feat pow2 radix
         /// @bound input length <= 10 over the number alphabet
         /// @fn lexical-parse-integer::algorithm::algorithm_complete[i8, radix 2]
